@@ -48,7 +48,10 @@ def build_from_recipe(L, recipe):
 def build_direct(L, recipe, cur_dtype):
     """A module constructed directly in precision cur_dtype (C16-ii)."""
     L.torch.set_default_dtype(DT[cur_dtype])
-    mod = catalog.build(recipe[0][1], recipe[0][2])
+    p = recipe[0][2]
+    if catalog.explicit_dtype(recipe[0][1], p):
+        p = dict(p, dtype_as=cur_dtype)
+    mod = catalog.build(recipe[0][1], p)
     for st in recipe[1:]:
         if st[0] == "load_other":
             # the values come from another configuration, built under the default
@@ -65,7 +68,8 @@ def dtype_path(recipe):
     construct -> default dtype in force; convert -> its target; deepcopy/pickle
     -> unchanged; state_dict restart -> a module constructed under the default
     in force then, converted the same way, loaded with the old values."""
-    path = [recipe[0][3]]
+    explicit = catalog.explicit_dtype(recipe[0][1], recipe[0][2])
+    path = [explicit or recipe[0][3]]
     converted = None
     for st in recipe[1:]:
         if st[0] == "convert":
@@ -74,7 +78,7 @@ def dtype_path(recipe):
             converted = CONVERT_TARGET[st[1]]
             path.append(converted)
         elif st[0] == "restart" and st[1] == "state_dict":
-            path.append(converted or st[2])
+            path.append(converted or explicit or st[2])
     return path
 
 
@@ -477,8 +481,10 @@ def check_c16(w, rec, st):
                     "module with dtype history %s (now %s) differs from a module constructed in %s: %s"
                     % (path, cur, cur, m))
         return
-    # (i) outputs carry the input's dtype
-    bad = _wrong_dtype(rec["out_snap"], in_dt)
+    # (i) outputs carry the input's dtype - stated for floating-point inputs
+    # (the property quantifies over float32 and float64); what an integer, bool,
+    # reduced-precision or complex input gives, if accepted at all, is not fixed
+    bad = _wrong_dtype(rec["out_snap"], in_dt) if in_dt in ("float32", "float64") else None
     if bad:
         w.violation("D1-output-dtype", rec, "input dtype %s but %s" % (in_dt, bad))
     check_d4(w, rec, st, kind, in_dt)
